@@ -330,7 +330,11 @@ func (g *G) realSet3() int {
 			}
 		}
 		if nanSeg {
-			g.Stat("real3 tri skipped(degenerate triangle returns NaN segment)", 1)
+			// (found by this harness and repaired in /repo by "fix: Triangle.TriangleCollisions reported a
+			// NaN segment for zero-area triangles"): a leaf that reports a collision far outside its own
+			// bounds makes the bounds-pruning hierarchy disagree with the scan over the triangles.
+			g.PropFail("prop:c08 real3-triangle-reports-nan-segment",
+				"a triangle of the set answers TriangleCollisions with a non-finite segment: "+fmt.Sprint(prims)+" query "+fmt.Sprint(q.a))
 			continue
 		}
 		for _, hs := range []struct {
